@@ -1159,6 +1159,8 @@ class Executor:
                 # the product of two integers below 2**52 in magnitude is exact in binary64; the sign of a zero
                 # product is not tracked (0 * negative = -0.0 compares equal to +0.0 and is only observable by bit tests)
                 return IntD(ia.e * ib.e, ia.bound * ib.bound)
+        if op == 'fdiv' and isinstance(b, float) and b == 1.0 and isinstance(a, IntD):
+            return a  # x / 1.0 is x
         a, b = fp(a), fp(b)
         if op == 'fadd':
             return z3.fpAdd(RNE, a, b)
@@ -1462,7 +1464,15 @@ class Executor:
             elif op == 'fcmp':
                 regs[ins.dst] = self.fcmp(ins.x, val(fr, ins.a), val(fr, ins.b))
             elif op in ('fadd', 'fsub', 'fmul', 'fdiv'):
-                regs[ins.dst] = self.fbin(op, val(fr, ins.a), val(fr, ins.b))
+                a, b = val(fr, ins.a), val(fr, ins.b)
+                if op == 'fdiv' and isinstance(a, IntD) and isinstance(b, float) and b in (2.0, 4.0) and not a.nz:
+                    # exact halving: if the solver shows the integer is a multiple of the divisor on this path, the
+                    # quotient is again an exact integer-valued double; otherwise fall back to the IEEE term
+                    p = int(b)
+                    if self.check(st, (a.e & (p - 1)) != 0) is None:
+                        regs[ins.dst] = IntD(a.e >> (p.bit_length() - 1), a.bound // p + 1)
+                        continue
+                regs[ins.dst] = self.fbin(op, a, b)
             elif op == 'fneg':
                 a = val(fr, ins.a)
                 if isinstance(a, IntD):
